@@ -364,6 +364,90 @@ def name_languages(out):
     return violations
 
 
+RESOLVE_HARNESS = '''
+"""CrossHair harness generated by j2ov.checks.c05: real _resolve_positional_inputs on stub graphs."""
+import jax2onnx.user_interface as UI
+
+
+class _V:
+    def __init__(self, name):
+        self.name = name
+
+
+class _G:
+    def __init__(self, inputs):
+        self.inputs = inputs
+
+
+def _names(n, nchw_mask, param_pos):
+    names = []
+    for i in range(n):
+        names.append("in_%d_nchw" % i if (nchw_mask >> i) & 1 else "in_%d" % i)
+    if 0 <= param_pos <= n:
+        names.insert(param_pos, "deterministic")
+    return names
+
+
+def resolve_in_index_order(n: int, nchw_mask: int, param_pos: int) -> bool:
+    """
+    pre: 0 <= n <= 12 and 0 <= nchw_mask < 2 and -1 <= param_pos <= 1
+    post: _
+    """
+    names = _names(n, nchw_mask, param_pos)
+    g = _G([_V(x) for x in names])
+    try:
+        got = UI._resolve_positional_inputs(g, n)
+    except ValueError:
+        return False  # all n positional inputs are present: resolution must succeed
+    want = [x for x in names if x != "deterministic"]
+    return [v.name for v in got] == want
+
+
+def twin_reaches_two_digit_names(n: int) -> bool:
+    """
+    pre: 0 <= n <= 13
+    post: _
+    """
+    g = _G([_V("in_%d" % i) for i in range(n)])
+    return len(UI._resolve_positional_inputs(g, n)) < 11  # must be refuted (n >= 11 reachable)
+'''
+
+
+def resolve_kernel(tier, out):
+    from ..crosshair_util import run_conditions
+    import importlib.util
+
+    os.makedirs("/verif/.work", exist_ok=True)
+    path = f"/verif/.work/c05_resolve_{os.getpid()}.py"
+    open(path, "w").write(RESOLVE_HARNESS)
+    res = run_conditions(path, ["resolve_in_index_order", "twin_reaches_two_digit_names"], 90 if tier == "quick" else 400)
+    out["resolve_kernel"] = {k: {"verdict": v.get("verdict"), "wall_s": v.get("wall_s"), "message": v.get("message", "")[-200:]} for k, v in res.items()}
+    violations = []
+    r = res.get("resolve_in_index_order", {})
+    if r.get("verdict") == "counterexample":
+        from .c13 import parse_args
+
+        args = parse_args(r.get("message", ""), "resolve_in_index_order")
+        spec = importlib.util.spec_from_file_location("c05_resolve", path)
+        mod = importlib.util.module_from_spec(spec)
+        spec.loader.exec_module(mod)
+        rep = None
+        if args:
+            try:
+                rep = mod.resolve_in_index_order(*args) is False
+            except Exception:
+                rep = None
+        if rep:
+            violations.append({"key": "resolve_positional_inputs|order", "what": f"_resolve_positional_inputs does not return the positional inputs in index order for n={args[0]} (nchw mask {args[1]}, param at {args[2]})", "payload": {"args": args}})
+        else:
+            out["inconclusive"].append("resolve kernel: counterexample not reproduced")
+    elif r.get("verdict") != "confirmed":
+        out["inconclusive"].append(f"resolve kernel: {r.get('verdict')}")
+    out["resolve_twin_ok"] = res.get("twin_reaches_two_digit_names", {}).get("verdict") == "counterexample"
+    os.remove(path)
+    return violations
+
+
 def replay_unused_input(name):
     """Export a callable with an unused positional argument that the converter names `name`."""
     import jax.numpy as jnp
@@ -570,6 +654,9 @@ def interface_programs():
     p["names_output_is_input"] = mk(lambda x, y: (x, x + y), [((3,), F32), ((3,), F32)], config={"output_names": ["same", "sum"]})
     p["symbolic_names_kept"] = mk(lambda x, y: x.sum(axis=0) + y, [(("batch", 3), F32), ((3,), F32)])
     p["double_flag_int_input"] = mk(lambda x, i: x * i.astype(jnp.float32), [((3,), F32), ((3,), I32)], config={"enable_double_precision": True})
+    p["twelve_inputs_named"] = mk(lambda *a: sum(x.sum() * (i + 1) for i, x in enumerate(a) if i != 5), [((i + 1, 2), F32) for i in range(12)], config={"input_names": [f"arg_{chr(97 + i)}" for i in range(12)], "output_names": ["total"]})
+    p["eleven_inputs_unused_last"] = mk(lambda *a: a[0] + a[9].sum(), [((2,), F32)] * 11)
+    p["twelve_inputs_plain"] = mk(lambda *a: a[10] * 2.0 + a[2].sum(), [((i + 1,), F32) for i in range(12)])
     p["scalar_inputs"] = mk(lambda a, b: a * b, [((), F32), ((), F32)])
     _IF = p
     return p
@@ -697,6 +784,10 @@ def main(tier):
         violations += name_languages(out)
     except Unsupported as e:
         harness_err = f"source no longer matches the extraction subset: {e}"
+    try:
+        violations += resolve_kernel(tier, out)
+    except Exception as e:
+        out["inconclusive"].append(f"resolve kernel harness: {type(e).__name__}: {e}")
     # part 2 (custom naming under CrossHair) is NOT run: CrossHair's isinstance interception fails
     # inside onnx_ir ("Protocols with non-method members don't support issubclass()"), so the real
     # _apply_custom_io_names_on_ir cannot be traced symbolically here.  Requested-name programs are
@@ -719,6 +810,8 @@ def main(tier):
         "samples": q[:3] or [{"note": "no query"}],
         "queries": q,
         "naming": out.get("naming"),
+        "resolve_positional_inputs_kernel": out.get("resolve_kernel"),
+        "resolve_twin_ok": out.get("resolve_twin_ok"),
         "pattern": out.get("pattern"),
         "self_validation_mismatches": out.get("self_validation_mismatches"),
         "twins_ok": out.get("twins_ok"),
